@@ -349,6 +349,10 @@ def viz_text_lines(txt, dot):
             "edges": [l for l in dl if re.match(r'\s*"[^"]*" -> "[^"]*";$', l)]}
 
 
+def has_validate(it):
+    return any(f.get("validate") for f in it.get("fields", []))
+
+
 def content_tables(sk, case):
     """the items behind the ids of the skeleton in the syntax of Model/Pipeline.v, and which of them are inside
     the fragment that text-level model covers (structs, no type mapping involved)"""
@@ -554,6 +558,69 @@ def evaluate(groups, tier):
                         break
                 if not r.corr:
                     break
+    # Zod mode: the schema text of every struct of types.ts (Model/PipelineZod.v struct_schema_text), as token blocks
+    seen, zjobs, zruns = set(), [], []
+    for r, o in zip(jruns, outs):
+        if r.mode != "zod" or not r.corr or not o or not o[0]:
+            continue
+        key = (id(r.sk), r.res["files"].get("types.ts"))
+        if key in seen:
+            continue
+        seen.add(key)
+        r.tables = content_tables(r.sk, r.case)
+        r.mout = o[0][0]
+        zjobs.append(sx([r.omega, r.sk.project, r.tables[0]]))
+        zruns.append(r)
+    if zruns:
+        zouts = vlib.run_runner("c13-zodblocks", zjobs)
+        ztexts = sorted(set(r.res["files"]["types.ts"] for r in zruns))
+        zf = dict(zip(ztexts, vlib.run_runner("c13-fileblocks", [sx(t) for t in ztexts])))
+        for r, zo in zip(zruns, zouts):
+            if (zo and zo[0] == "runner-error") or not zo:
+                raise vlib.BuildError("runner: %s" % (zo,))
+            sdecl = [d for d in r.mout[0] if d[0] == "schema"]
+            if len(zo[0]) != len(sdecl):
+                r.corr, r.why = False, "text level: %d zod struct texts for %d schema declarations" % (len(zo[0]), len(sdecl))
+                continue
+            real = {}
+            for b in zf[r.res["files"]["types.ts"]]:
+                real.setdefault(json.dumps(b[:4]), b)
+            for d, blocks in zip(sdecl, zo[0]):
+                if not r.tables[1][int(d[2])] or has_validate(r.sk.bodies[int(d[2])][1]):
+                    TEXT_STATS["zod_outside_fragment"] = TEXT_STATS.get("zod_outside_fragment", 0) + 1
+                    continue
+                for b in blocks:
+                    TEXT_STATS["zod_blocks_compared"] = TEXT_STATS.get("zod_blocks_compared", 0) + 1
+                    if real.get(json.dumps(b[:4])) != b:
+                        r.corr, r.why = False, "text level: zod types.ts block %s: model tokens %s, implementation %s" % (
+                            b[2:4], b, real.get(json.dumps(b[:4])))
+                        break
+                if not r.corr:
+                    break
+    # events.ts as text (Model/Events.v), plain mode, payload types without a type mapping
+    seen, ejobs, eruns = set(), [], []
+    for r, o in zip(jruns, outs):
+        if r.mode == "zod" or not r.corr or not o or not o[0] or "events.ts" not in r.res["files"]:
+            continue
+        key = (id(r.sk), r.res["files"]["events.ts"])
+        mapped = set(k.split("::")[-1] for k in r.sk.mapped)
+        if key in seen or any(set(re.findall(r"\w+", t)) & mapped for t in r.sk.pays):
+            continue
+        seen.add(key)
+        ejobs.append(sx([r.omega, r.sk.project, r.sk.evs, r.sk.pays]))
+        eruns.append(r)
+    if eruns:
+        for r, o in zip(eruns, vlib.run_runner("c13-eventstext", ejobs)):
+            if o and o[0] == "runner-error":
+                raise vlib.BuildError("runner: %s" % o)
+            real = r.res["files"]["events.ts"]
+            real = real[real.index("import {"):] if "import {" in real else real
+            TEXT_STATS["events_text_compared"] = TEXT_STATS.get("events_text_compared", 0) + 1
+            # blank lines are ignored: Model/Events.v (shared, read-only) predates C12-fix-dedup, whose template leaves an
+            # additional blank line at some listeners
+            nb = lambda t: [l for l in t.split("\n") if l.strip()]
+            if not o or nb(o[0]) != nb(real):
+                r.corr, r.why = False, "text level: events.ts %r vs model %r" % (real[:400], (o[0] if o else None) and o[0][:400])
     # 3. classes
     sks = []
     for g in groups:
